@@ -11,14 +11,32 @@ MonClaimLifecycle.tla); the behaviours it replays on that production stack are j
 FORMULAS = ["Wiring.Stack", "Wiring.Syncer", "Wiring.DefaultPolicy", "Ref.Stable", "Ref.First"]
 
 
+# C07 also takes what the production reconciler does when the upgrade of the XR's managed fields (client-side to server-side
+# apply) fails: the reconcile stops and is retried - it does not go on to sync over half-upgraded managed fields
+# (added after the seeded change C07-m9 was missed; the scenarios with a failing upgrade are in cfg quick_bind).
+EXTRA = {"C07": ["Requeue.OnFailure"]}
+
+
 def run(ctx, pid, extra=()):
     from checks import x06
     sub = ctx.sub("claimlifecycle")
+    extra = list(extra) + EXTRA.get(pid, [])
     keep = set(FORMULAS) | set(extra)
     scs, st, tr = [], 0, 0
-    for name, n in ([("quick", 120), ("quick_ssa", 120)] if ctx.quick else [("quick", 2000), ("quick_ssa", 2000), ("thorough_f2", 1500), ("thorough_f2_csa", 1500)]):
+    plan = [("quick", 120), ("quick_ssa", 120)] if ctx.quick else [("quick", 2000), ("quick_ssa", 2000), ("thorough_f2", 1500), ("thorough_f2_csa", 1500)]
+    if pid == "C07":
+        plan.append(("quick_bind", 0))
+    for name, n in plan:
         mc = sub.model_check(x06.MODULE, "%s_%s.cfg" % (x06.MODULE, name), sub="mc_" + name, workers=4, timeout=1500)
-        scs += [{"id": "%s-%s-%07d" % (pid, name, i), "hist": h, "rider": "wiring"} for i, h in sub.sample_lines(mc["emitted_file"], n, mc["emitted"])]
+        if n == 0:
+            # every behaviour of this cfg in which the upgrade of the XR's managed fields does not simply succeed
+            import json
+            with open(mc["emitted_file"]) as f:
+                for i, line in enumerate(f, 1):
+                    if '"k":"upgrade"' in line and '"k":"upgrade","o":"xr","f":"ok"' not in line:
+                        scs.append({"id": "%s-%s-%07d" % (pid, name, i), "hist": json.loads(line), "rider": "wiring"})
+        else:
+            scs += [{"id": "%s-%s-%07d" % (pid, name, i), "hist": h, "rider": "wiring"} for i, h in sub.sample_lines(mc["emitted_file"], n, mc["emitted"])]
         st += mc["states"]
         tr += mc["transitions"]
     s, n, _ = x06.drive_and_judge(sub, scs, sweep=0, shards=4, counts=False)
@@ -31,5 +49,5 @@ def run(ctx, pid, extra=()):
 def replay(ctx, path, extra=()):
     from checks import x06
     x06.replay(ctx, path)
-    keep = set(FORMULAS) | set(extra)
+    keep = set(FORMULAS) | set(extra) | {f for fs in EXTRA.values() for f in fs}
     ctx.violations = [v for v in ctx.violations if v["formula"] in keep]
